@@ -10,7 +10,10 @@
                answer is what _on_read then reads from the parser: is_headers_complete(),
                errno, is_message_complete()
      a_errreq  wrappers.Request(...) on the 400 path (answers the parsed version)
-     a_req     wrappers.Request(..., headers=...)  -- Host port int(), parse_url, cookies
+     a_req     the statement req = wrappers.Request(sock, parser.get_method(), parser.get_scheme(), ...,
+               headers=...)  -- Host port int(), parse_url, cookies, getpeername(), and the evaluation
+               of its arguments (get_scheme() raises AttributeError on a parser that never saw a
+               valid request line)
      a_clen    int(req.headers.get('Content-Length', '0'))
      a_path    the path guard (str.encode, quote) and the redirect constructor
      a_excreq  wrappers.Request(sock, server=...) inside _on_exception (getpeername())
